@@ -12,7 +12,7 @@ def auditsUpd (s : Store) (modeOf : Nat → UpdateMode) (required : List (Nat ×
     match assoc? n required with
     | some (some r) =>
       if (modeOf n).pruneNonImportable then
-        (n, keepIdx l (fun i a => a.importable || r.has (.localAudit i)))
+        (n, keepIdx l (fun i a => a.importable || isViolation a || r.has (.localAudit i)))
       else (n, keepIdx l (fun _ _ => true))
     | _ => (n, keepIdx l (fun _ _ => true)))
 
